@@ -23,7 +23,8 @@ RULE = ("the C05 storage histories (with key-override writes to shared keys, Non
         '; rounds 7-9: earlier mementos re-read through the writing backend, partitions with entries inherited from a merge parent'
         '; round 12: two writers under one override key under schedule control (one preemption at every yield point of the storage code)'
         '; round 14: a partition staged on disk whose values are stored already'
-        '; round 15: mementos in the caller\'s hands read for forgotten calls as well; whatever an earlier memento reads is a value that call stored')
+        '; round 15: mementos in the caller\'s hands read for forgotten calls as well; whatever an earlier memento reads is a value that call stored'
+        '; round 16: a recorded failure whose message is not ASCII')
 ASSUMPTIONS = [
     "a memento stops being 'live' when its own call is re-memoized or forgotten (the property speaks of "
     "changes made for other calls)",
